@@ -15,6 +15,9 @@ var bigEvalCache = map[string]*BigEval{}
 
 func (P *Program) bigEval(fn *ssa.Function) *BigEval {
 	key := fmt.Sprintf("%p", fn) + bindingSig(fn)
+	if bindStructParams {
+		key += "|S"
+	}
 	if be, ok := bigEvalCache[key]; ok {
 		return be
 	}
@@ -110,7 +113,15 @@ func eqMatcher(xp, yp func(string) bool) func(Atom) bool {
 			return false
 		}
 		dx, dy := desc(x), desc(y)
-		return (xp(dx) && yp(dy)) || (xp(dy) && yp(dx))
+		if (xp(dx) && yp(dy)) || (xp(dy) && yp(dx)) {
+			return true
+		}
+		if isBigIntPtr(x.Type()) && isBigIntPtr(y.Type()) {
+			// Cmp dereferences both operands: a helper's result stands for its non-nil value
+			dx, dy = descNN(x), descNN(y)
+			return (xp(dx) && yp(dy)) || (xp(dy) && yp(dx))
+		}
+		return false
 	}
 }
 
